@@ -410,7 +410,7 @@ Ltac step_inv H := step_inv_all.
 
 Ltac step_unfold H :=
   unfold step, step_pinned, step_gen in H;
-  unfold step_arr, step_strs, step_tuple, step_bits, step_vb, step_map, step_ints in H.
+  unfold step_arr, step_strs, step_tuple, step_bits, step_vb, step_map, step_kv, step_ints in H.
 
 (** every kind: an element that is stored passed all checks *)
 Lemma step_gen_checks p k o t c c' : step_gen p k o t c = Ok c' -> run_checks (o_checks o) t = Ok tt.
